@@ -101,25 +101,30 @@ class C07:
     budgets = {"quick": {"shards": 14, "examples": 12, "seconds": 85},
                "thorough": {"shards": 16, "examples": 500, "seconds": 1500}}
 
-    def strategy(self, ctx):
+    def strata(self, ctx):
         max_size = 15000 if ctx.tier == "quick" else 80000
+        out = []
+        for v in ALL_VERSIONS:
+            for k, w in (("prog", 2), ("stdlib", 1), ("values", 1)):
+                @st.composite
+                def case(draw, v=v, k=k):
+                    extra = draw(st.lists(st.sampled_from(HOSTS), min_size=1, max_size=2, unique=True))
+                    c = {"k": k, "v": v, "hosts": extra, "fmt": draw(st.sampled_from(["classic", "classic", "extended", "bytes"]))}
+                    if k == "values":
+                        # constants with a sharing plan, marshalled by the real interpreter (FLAG_REF / back-references
+                        # on every object kind: what compilers emit only rarely)
+                        c["values"] = draw(gv.shared_values(v.startswith("2.")))
+                    elif k == "prog":
+                        c["src"] = draw(gp.programs(v, size=draw(st.integers(2, 4))))
+                    else:
+                        c["path"] = draw(st.sampled_from(pd.stdlib_files(ctx, v, max_size)))
+                    return c
+                # files of versions that have a host get both loader routes: twice the weight
+                out.append(["%s:%s" % (k, v), case(), w * (2 if v in HOSTS else 1)])
+        return out
 
-        @st.composite
-        def case(draw):
-            v = draw(st.sampled_from(ALL_VERSIONS + ["3.8", "3.9", "3.10", "3.11", "3.12", "3.13"]))
-            k = draw(st.sampled_from(["prog", "prog", "stdlib", "values"]))
-            extra = draw(st.lists(st.sampled_from(HOSTS), min_size=1, max_size=2, unique=True))
-            c = {"k": k, "v": v, "hosts": extra, "fmt": draw(st.sampled_from(["classic", "classic", "extended", "bytes"]))}
-            if k == "values":
-                # constants with a sharing plan, marshalled by the real interpreter (FLAG_REF / back-references
-                # on every object kind: what compilers emit only rarely)
-                c["values"] = draw(gv.shared_values(v.startswith("2.")))
-            elif k == "prog":
-                c["src"] = draw(gp.programs(v, size=draw(st.integers(2, 4))))
-            else:
-                c["path"] = draw(st.sampled_from(pd.stdlib_files(ctx, v, max_size)))
-            return c
-        return case()
+    def strategy(self, ctx):
+        return st.one_of([s_ for _, s_, _ in self.strata(ctx)])
 
     def fixed_cases(self, ctx):
         files = [p for p in pd.corpus_files() if "dropbox" not in p]
